@@ -618,9 +618,10 @@ func c17runCer(cs c17cer) (lines *c17lines, fails []c17failure, evals int, tags 
 				if got.digest() == ref.digest() {
 					ans = fmt.Sprintf("ver %d", v)
 				} else {
-					for ov, d := range verDigest {
-						if d == got.digest() {
+					for ov := 1; ov <= len(versions); ov++ { // smallest matching version: deterministic
+						if d, ok := verDigest[ov]; ok && d == got.digest() {
 							ans = fmt.Sprintf("ver %d", ov)
+							break
 						}
 					}
 				}
@@ -952,7 +953,7 @@ func c17script(c *hx.Ctx, cs *c17cer, ntx int, scripted int) {
 }
 
 func c17ceremonies(c *hx.Ctx) error {
-	n := c.Scale(60, 1500)
+	n := c.Scale(150, 1500)
 	for i := 0; i < n; i++ {
 		cs := c17genCer(c)
 		fx, err := c17newFx(cs)
